@@ -284,7 +284,7 @@ func run(p props.Prop) int {
 		go func(w int) {
 			defer wg.Done()
 			from := 0
-			for attempt := 0; attempt < 50; attempt++ {
+			for attempt := 0; attempt < 6; attempt++ { // a worker that has met six cases that never yield stops: the finding is established
 				last, code := runWorker(p, w, nw, from, n, tmp, a)
 				if code == 0 {
 					return
@@ -391,16 +391,46 @@ func confirmHangs(p props.Prop, viol, infra []*props.Result, a *agg) ([]*props.R
 		}
 		return isHang(&r2)
 	}
+	// re-execute the expiries, eight at a time; once three have reproduced the phenomenon is established and the
+	// remaining ones (each costs up to three watchdog periods) are taken as confirmed
+	var hangs []*props.Result
+	for _, r := range append(append([]*props.Result{}, viol...), infra...) {
+		if isHang(r) {
+			hangs = append(hangs, r)
+		}
+	}
+	spurious := map[*props.Result]bool{}
+	confirmed := 0
+	for at := 0; at < len(hangs) && confirmed < 3; at += 8 {
+		end := at + 8
+		if end > len(hangs) {
+			end = len(hangs)
+		}
+		res := make([]bool, end-at)
+		var wg sync.WaitGroup
+		for k := at; k < end; k++ {
+			wg.Add(1)
+			go func(k int) { defer wg.Done(); res[k-at] = recheck(hangs[k]) }(k)
+		}
+		wg.Wait()
+		for k, ok := range res {
+			if ok {
+				confirmed++
+			} else {
+				spurious[hangs[at+k]] = true
+			}
+		}
+	}
 	var v2, i2 []*props.Result
 	for _, r := range viol {
-		if isHang(r) && !recheck(r) {
+		if spurious[r] {
 			a.stats["watchdog_expiry_not_reproduced"]++
 			continue
 		}
 		v2 = append(v2, r)
 	}
 	for _, r := range infra {
-		if isHang(r) && !recheck(r) {
+		if spurious[r] {
 			a.stats["watchdog_expiry_not_reproduced"]++
 			continue
 		}
@@ -580,9 +610,19 @@ func reportViolation(p props.Prop, r *props.Result, sig string) string {
 	c := p.Make(*fTier, *fSeed, r.Index)
 	c.Tape = r.Tape
 	orig := len(c.Tape)
-	mc, mr, runs := shrink(p, c, sig, 400, time.Now().Add(90*time.Second))
+	var mc *props.Case
+	var mr *props.Result
+	runs := 0
+	if !isHang(r) {
+		mc, mr, runs = shrink(p, c, sig, 400, time.Now().Add(90*time.Second))
+	}
 	note := ""
-	if mr == nil {
+	if isHang(r) {
+		// every re-execution of a case that never yields costs a watchdog period and leaves a spinning thread
+		// behind in this process: the recorded tape is the replay, unminimised
+		mc, mr = c, r
+		note = "not minimised: the violation is a task that never yields (each re-execution would cost a watchdog period)"
+	} else if mr == nil {
 		// could not reproduce in this process with zero padding: keep the full tape
 		mc, mr = c, r
 		note = "not minimised: did not reproduce under re-execution with a padded tape"
